@@ -277,7 +277,10 @@ pub fn rand(min: u64, max: u64, unused3: u64, unused4: u64, unused5: u64) -> u64
     });
 
     if min < max {
-        n = n % (max + 1 - min) + min;
+        // The span is max - min + 1 values; if that is 2^64, any n is in range already.
+        if let Some(span) = (max - min).checked_add(1) {
+            n = n % span + min;
+        }
     };
     n
 }
